@@ -35,6 +35,9 @@ func init() {
 		Run:         runC15,
 		Workers:     4,
 		Replay: func(raw json.RawMessage) (string, error) {
+			if s, ok, err := mixReplay(raw); ok {
+				return s, err
+			}
 			var r c15Replay
 			json.Unmarshal(raw, &r)
 			p := prof()
@@ -241,6 +244,7 @@ func c15Dynamic(e fit.VerifField) (msg string, stream []byte) {
 
 func runC15(w *vx.W) {
 	p := prof()
+	c15HeaderTimestampPairs(w)
 	nf, nt, nc := fit.VerifTableLens()
 	if w.Shard == 0 {
 		// table-level consistency
@@ -473,4 +477,47 @@ func baseIndexOfByte(b byte) (int, bool) {
 		}
 	}
 	return 0, false
+}
+
+// ---- the timestamp a compressed-timestamp header gives a message goes through the profile entry for field 253 of
+// *that* message: every ordered pair of known messages on one local message type (the slot is redefined from the
+// first to the second), both written with compressed headers after a reference time was set. No reflection access
+// may fail, and each message gets the time iff its profile has a date_time field 253.
+func c15HeaderTimestampPairs(w *vx.W) {
+	p := prof()
+	var idx int64
+	for _, m1 := range p.known {
+		for _, m2 := range p.known {
+			idx++
+			if !w.Mine(idx) {
+				continue
+			}
+			if m1 == 0 || m2 == 0 {
+				continue
+			}
+			ft, ok := hostType(m2)
+			if !ok {
+				ft, ok = hostType(m1)
+				if !ok {
+					ft = 4
+				}
+			}
+			ref := fitmodel.Def{Local: 3, Global: 0xFF00, Fields: []fitmodel.FieldDef{{Num: 253, Size: 4, Base: fitmodel.Uint32}}}
+			_ = ref
+			tsDef := recordDef(3, false)
+			if ft != 4 && ft != byte(fit.FileTypeCourse) {
+				// record is not held everywhere; any known message with field 253 sets the reference, held or not
+				tsDef = recordDef(3, false)
+			}
+			d1 := fitmodel.Def{Local: 1, Global: m1}
+			d2 := fitmodel.Def{Local: 1, Big: true, Global: m2}
+			stream := fitmodel.File(fitmodel.DefaultHeader, append(fitmodel.FileIdRecords(0, ft), tsDef.Bytes(), recordData(3, false, 1000000000, 61, 1),
+				d1.Bytes(), fitmodel.Compressed(1, 5, nil), d2.Bytes(), fitmodel.Compressed(1, 9, nil), fitmodel.Compressed(1, 9, nil))...)
+			w.Eval(1)
+			w.Fam("header-timestamp-message-pairs", 1)
+			if msg := mixCheck(stream); msg != "" {
+				w.Violation("header-timestamp", fmt.Sprintf("local type 1 defined as %v, then as %v, compressed-timestamp records under each: %s", fit.MesgNum(m1), fit.MesgNum(m2), msg), mixReplayT{Mix: true, Word: fmt.Sprintf("%v then %v", fit.MesgNum(m1), fit.MesgNum(m2)), Stream: vx.Hex(stream)})
+			}
+		}
+	}
 }
